@@ -10,6 +10,7 @@
 -/
 import Proofs.Monad
 import Props.C03
+import Proofs.GraphHist
 
 namespace Measured.C07
 open Measured
@@ -88,5 +89,19 @@ theorem ltCore_no_notFound (a b : Qty α) (c : Conv α) :
 theorem convert_incommensurable {c : Conv α} {q : Qty α} {t : UId}
     (hd : c.st.dimOfUnit q.unit ≠ c.st.dimOfUnit t) :
     CM.exec (convert q t) c = (.error .notFound, c) := C03.convert_incommensurable hd
+
+/-! ### the path search itself (proved for the model of `_find_path_recursive` / `_reduce_dimension`) -/
+
+/-- In every state reached by unit operations, declarations that are consistent with a size
+    assignment (and dimensionally sound) and directly settled conversions, a path search between two
+    units of one dimension ENDS QUIETLY: it returns a path or the empty list — which `_inline_paths`
+    turns into ConversionNotFound — and raises nothing else, whether assertions are enabled
+    (`c.asserts`) or not.  The same theorem shows that the fuel of the model (`rows + 3`) is never
+    exhausted, i.e. the bounded recursion of the model is the unbounded recursion of the code. -/
+theorem path_search_never_raises {σ : UId → Rat} (hσ : ∀ k, σ k ≠ 0) {c : Conv Rat} (hr : Reach σ c)
+    {start stop : UId} (hs : start < c.st.units.length) (ht : stop < c.st.units.length)
+    (hd : c.st.dimOfUnit start = c.st.dimOfUnit stop) :
+    ∃ p c', CM.exec (findPath start stop) c = (.ok p, c') :=
+  reach_findPath_total hσ hr hs ht hd
 
 end Measured.C07
